@@ -56,7 +56,50 @@ let oops_of x = List.map (function
   | L [A "S"; I a; I b] -> OS (nat_of_int a, nat_of_int b)
   | _ -> failwith "oop") (list_of x)
 
+(* ---- PAM ---- *)
+let bools x = List.map bool_of (list_of x)
+let triple_of = function
+  | L [es; pre; post] -> { pt_graph = pairs es; pt_pre = nats pre; pt_post = nats post }
+  | _ -> failwith "triple"
+let tbl_of x = List.map (fun l -> List.map triple_of (list_of l)) (list_of x)
+let pstep_of = function
+  | L [A "P"; I n; pre; post] -> PExec (nat_of_int n, nats pre, nats post)
+  | L [A "PB"; I n] -> PBar (nat_of_int n)
+  | L [A "S"; I a; I b] -> PSwap (nat_of_int a, nat_of_int b)
+  | L [A "B"] -> PBacktrack
+  | L [A "U"; I a; I b] -> PUphill (nat_of_int a, nat_of_int b)
+  | _ -> failwith "pstep"
+let ptrace_of x = List.map pstep_of (list_of x)
+let vpairs l = L (List.map (fun (a, b) -> L [I (int_of_nat a); I (int_of_nat b)]) l)
+let vpop = function
+  | PG (n, l, pre, post, es) ->
+    L [A "G"; I (int_of_nat n); vnats l; vnats pre; vnats post;
+       L (List.map (fun (a, b) -> L [I a; I b]) (List.sort_uniq compare (List.map (fun (a, b) -> (int_of_nat a, int_of_nat b)) es)))]
+  | PB (n, l) -> L [A "B"; I (int_of_nat n); vnats l]
+  | PS (a, b) -> L [A "S"; I (int_of_nat a); I (int_of_nat b)]
+let vpout o = L (List.map vpop o)
+let run_ptrace cg c bars tbl modify s0 tr =
+  let rec go s tr k fs stricts = match tr with
+    | [] -> (A "OK", s, List.rev fs, List.rev stricts)
+    | t :: r ->
+      let st = pstrict_ok cg c s t in
+      (match do_pstep cg c bars tbl modify s t with
+       | None -> (L [A "DISABLED"; I k], s, List.rev fs, List.rev (st :: stricts))
+       | Some s' -> go s' r (k+1) (vsorted s'.pF :: fs) (st :: stricts)) in
+  go s0 tr 0 [vsorted s0.pF] []
+let pltr_of x = List.map (fun p -> match p with L [a; b] -> (ptrace_of a, trace_of b) | _ -> failwith "pltr") (list_of x)
+
 let handle line = match parse line with
+  | [A "ppass"; cg; c; bars; tbl; I nq; md; pi0; tr] ->
+    let cg = adj_of cg and c = circ_of c and md = bool_of md in
+    let s0 = pinit c (nat_of_int nq) (nats pi0) in
+    let (status, s, fs, stricts) = run_ptrace cg c (bools bars) (tbl_of tbl) md s0 (ptrace_of tr) in
+    L [status; vnats s.ppi; L fs; vpout s.pout; L (List.map vbool stricts)]
+  | [A "play"; g; pd; c; bars; tbl; I nq; ltr] ->
+    vopt vpd (pam_layout_on (circ_of c) (bools bars) (tbl_of tbl) (nat_of_int nq) (pltr_of ltr) (pd_of (adj_of g) pd))
+  | [A "prt"; g; pd; c; bars; tbl; I nq; tr] ->
+    vopt (fun (o, d) -> L [vpout o; vpd d])
+      (pam_routing_on (circ_of c) (bools bars) (tbl_of tbl) (nat_of_int nq) (ptrace_of tr) (pd_of (adj_of g) pd))
   (* pass cg circ nq fwd modify pi0 trace *)
   | [A "pass"; cg; c; I nq; fwd; md; pi0; tr] ->
     let cg = adj_of cg and c = circ_of c and fwd = bool_of fwd and md = bool_of md in
